@@ -2,7 +2,7 @@
 import ast
 
 from ..model import AnalysisError, own_nodes, norm_src
-from ..peval import DictV, FuncV, Const, ClassV, is_const
+from ..peval import DictV, FuncV, Const, ClassV, CallV, is_const
 from ..report import RuleResult
 from ..cfg import CFG
 from ..util import key_of, src, call_name
@@ -144,16 +144,36 @@ def _pop_relation(ctx):
     if len(loops) != 1:
         raise AnalysisError('Operator.ast: expected one while loop')
     lp = loops[0]
+    def _pairs(n):
+        t, v = n.targets[0], n.value
+        if isinstance(t, ast.Tuple) and isinstance(v, ast.Tuple) and len(
+                t.elts) == len(v.elts):
+            return list(zip(t.elts, v.elts))
+        return [(t, v)]
+
     new_names = set()
     for n in own_nodes(f):
-        if isinstance(n, ast.Assign) and isinstance(n.value, ast.Attribute) and \
-                n.value.attr == 'pred' and isinstance(n.value.value, ast.Name) \
-                and n.value.value.id == f.params[0]:
-            new_names |= {t.id for t in n.targets if isinstance(t, ast.Name)}
+        if isinstance(n, ast.Assign):
+            for t, v in _pairs(n):
+                if isinstance(v, ast.Attribute) and v.attr == 'pred' and \
+                        isinstance(v.value, ast.Name) and \
+                        v.value.id == f.params[0] and isinstance(t, ast.Name):
+                    new_names.add(t.id)
+
+    top_names = set()
+    for n in own_nodes(f):
+        if isinstance(n, ast.Assign):
+            for t, v in _pairs(n):
+                if isinstance(v, ast.Attribute) and v.attr == 'pred' and \
+                        isinstance(v.value, ast.Subscript) and 'stack' in \
+                        norm_src(v.value) and isinstance(t, ast.Name):
+                    top_names.add(t.id)
 
     def side(e):
         if isinstance(e, ast.Name) and e.id in new_names:
             return 'new'
+        if isinstance(e, ast.Name) and e.id in top_names:
+            return 'top'
         if isinstance(e, ast.Attribute) and e.attr == 'pred':
             if isinstance(e.value, ast.Name) and e.value.id == f.params[0]:
                 return 'new'
@@ -169,34 +189,89 @@ def _pop_relation(ctx):
         op = type(c.ops[0])
         if l == 'new' and r == 'top':
             return {ast.Gt: 'new>top', ast.GtE: 'new>=top', ast.Lt: 'new<top',
-                    ast.LtE: 'new<=top'}.get(op)
+                    ast.LtE: 'new<=top', ast.Eq: 'new==top'}.get(op)
         if l == 'top' and r == 'new':
             return {ast.Gt: 'new<top', ast.GtE: 'new<=top', ast.Lt: 'new>top',
-                    ast.LtE: 'new>=top'}.get(op)
+                    ast.LtE: 'new>=top', ast.Eq: 'new==top'}.get(op)
         return None
 
-    # idiom 1: `if new > top: break` in the loop body
+    def right_set(e):
+        """Operator names for which a flag expression is true:
+        `self.name in self._attr` / `self.name in (...)` / a local bound to it."""
+        if isinstance(e, ast.Name):
+            for n in own_nodes(f):
+                if isinstance(n, ast.Assign):
+                    t, v = n.targets[0], n.value
+                    if isinstance(t, ast.Tuple) and isinstance(v, ast.Tuple):
+                        for tt, vv in zip(t.elts, v.elts):
+                            if isinstance(tt, ast.Name) and tt.id == e.id:
+                                return right_set(vv)
+                    elif isinstance(t, ast.Name) and t.id == e.id:
+                        return right_set(v)
+            return None
+        if isinstance(e, ast.Compare) and len(e.ops) == 1 and isinstance(
+                e.ops[0], ast.In) and norm_src(e.left) == '%s.name' % f.params[0]:
+            c = e.comparators[0]
+            if isinstance(c, ast.Attribute) and isinstance(c.value, ast.Name) \
+                    and c.value.id == f.params[0]:
+                av = ctx.ev.class_attr(p.cls(OP, 'Operator'), c.attr)
+                vals = ctx.ev.iterate(av)
+                if vals is None and isinstance(av, CallV) and av.args:
+                    vals = ctx.ev.iterate(av.args[0])
+                if vals is not None and all(is_const(v, str) for v in vals):
+                    return {v.v for v in vals}
+            if isinstance(c, (ast.Tuple, ast.List, ast.Set)) and all(
+                    isinstance(x, ast.Constant) for x in c.elts):
+                return {x.value for x in c.elts}
+        return None
+
+    def decide(test, negate_for_while=False):
+        """(relation, right-assoc set) for a break test."""
+        disj = test.values if isinstance(test, ast.BoolOp) and isinstance(
+            test.op, ast.Or) else [test]
+        base, right = None, set()
+        for d in disj:
+            r = rel(d)
+            if r is not None:
+                base = r
+                continue
+            if isinstance(d, ast.BoolOp) and isinstance(d.op, ast.And):
+                eq = [x for x in d.values if rel(x) == 'new==top']
+                flags = [x for x in d.values if rel(x) is None]
+                if len(eq) == 1 and len(flags) == 1:
+                    rs = right_set(flags[0])
+                    if rs is None:
+                        return None
+                    right |= rs
+                    continue
+            return None
+        return base, right
+
+    # idiom 1: `if new > top [or (flag and new == top)]: break` in the loop body
     for st in lp.body:
         if isinstance(st, ast.If) and any(isinstance(s, ast.Break)
                                           for s in st.body):
-            r = rel(st.test)
+            d = decide(st.test)
+            if d is None:
+                break
+            r, right = d
             if r == 'new>top':
-                return 'ge', lp  # stop when strictly tighter -> pop iff top >= new
+                return 'ge', lp, right
             if r == 'new>=top':
-                return 'gt', lp
+                return 'gt', lp, right
             if r is not None:
-                return 'inverted:' + r, lp
+                return 'inverted:' + r, lp, right
     # idiom 2: relation in the while test
     conj = lp.test.values if isinstance(lp.test, ast.BoolOp) and isinstance(
         lp.test.op, ast.And) else [lp.test]
     for c in conj:
         r = rel(c)
         if r == 'new<=top':
-            return 'ge', lp
+            return 'ge', lp, set()
         if r == 'new<top':
-            return 'gt', lp
+            return 'gt', lp, set()
         if r is not None:
-            return 'inverted:' + r, lp
+            return 'inverted:' + r, lp, set()
     raise AnalysisError('Operator.ast: pop condition not recognised')
 
 
@@ -205,7 +280,7 @@ def rule_assoc(ctx, prec):
     rr = RuleResult('C01', 'C01.assoc', 'MPT+TAB',
                     'pop relation and resulting grouping of a op1 b op2 c',
                     floor=145)
-    relation, lp = _pop_relation(ctx)
+    relation, lp, right = _pop_relation(ctx)
     f = ctx.project.func(OP, 'Operator.ast')
     rr.instances += 1
     if relation == 'ge':
@@ -237,6 +312,8 @@ def rule_assoc(ctx, prec):
                 continue
             pops = prec[a] >= prec[b] if relation == 'ge' else (
                 prec[a] > prec[b] if relation == 'gt' else None)
+            if pops and prec[a] == prec[b] and b in right:
+                pops = False  # the incoming operator is flagged right-assoc
             ca, cb = _class_of(spec, a), _class_of(spec, b)
             want_left = ca >= cb
             if pops is None:
@@ -550,6 +627,57 @@ def rule_fold(ctx):
     return rr
 
 
+def rule_signrun(ctx):
+    rr = RuleResult('C01', 'C01.signrun', 'TAB',
+                    'the sign of a folded run is the parity of its minus signs',
+                    floor=1)
+    p = ctx.project
+    ot = p.cls(OP, 'OperatorToken')
+    f = ot.methods.get('process')
+    rr.instances = 1
+    if f is None:
+        rr.ok('OperatorToken has no run folding', OP, nontrivial=False)
+        return rr
+    stores = [n for n in own_nodes(f) if isinstance(n, ast.Assign) and any(
+        isinstance(t, ast.Subscript) and isinstance(t.slice, ast.Constant)
+        and t.slice.value == 'name' for t in n.targets)]
+    if not stores:
+        rr.ok('OperatorToken.process does not rewrite the name', OP,
+              nontrivial=False)
+        return rr
+    parity = False
+    for n in own_nodes(f):
+        if isinstance(n, ast.BinOp) and isinstance(n.op, ast.Mod) and isinstance(
+                n.right, ast.Constant) and n.right.value == 2:
+            parity = True
+        if isinstance(n, ast.BinOp) and isinstance(n.op, (ast.BitAnd,)) and \
+                isinstance(n.right, ast.Constant) and n.right.value == 1:
+            parity = True
+        if isinstance(n, ast.BinOp) and isinstance(n.op, ast.BitXor):
+            parity = True
+        if isinstance(n, (ast.For, ast.While)):
+            for x in ast.walk(n):
+                # toggling / exhaustive pair cancellation inside a loop
+                if isinstance(x, ast.Assign) and isinstance(
+                        x.value, ast.UnaryOp) and isinstance(x.value.op, ast.Not):
+                    parity = True
+                if isinstance(x, ast.Call) and isinstance(
+                        x.func, ast.Attribute) and x.func.attr == 'replace' and \
+                        x.args and isinstance(x.args[0], ast.Constant) and \
+                        x.args[0].value == '--':
+                    parity = True
+    if parity:
+        rr.ok('the folded sign is computed from the parity of the number of '
+              'minus signs', '%s:%d' % (OP, stores[0].lineno))
+    else:
+        rr.fail(key_of(f, 'sign of a run not decided by parity'),
+                'OperatorToken.process folds a run of signs into `%s` without '
+                'any parity computation over its minus signs: runs of four or '
+                'more signs get the wrong sign' % norm_src(stores[0].value),
+                file=OP, function='OperatorToken.process', line=stores[0].lineno)
+    return rr
+
+
 def rule_filters(ctx):
     rr = RuleResult('C01', 'C01.filters', 'TAB',
                     'matcher order respects prefix overlaps', floor=3)
@@ -588,4 +716,4 @@ def run(ctx):
     r_prec, prec = rule_prec(ctx)
     return [r_prec, rule_arity(ctx), rule_assoc(ctx, prec), rule_unary(ctx),
             rule_names(ctx, prec), rule_empty(ctx), rule_render(ctx),
-            rule_fold(ctx), rule_filters(ctx)]
+            rule_fold(ctx), rule_signrun(ctx), rule_filters(ctx)]
